@@ -23,6 +23,7 @@ uint64_t sim_write_failed();
 void sim_in_sut(bool on);                    // thread-local: allocations/frees are the SUT's
 bool sim_is_in_sut();
 size_t sim_ledger_live(std::string *detail = nullptr);  // live SUT-allocated blocks
+bool sim_ledger_has(const void *p);                     // p is the start of a live block allocated by the SUT
 uint64_t sim_total_allocs();
 uint64_t sim_total_faults();
 int  sim_lock_depth();
